@@ -26,6 +26,10 @@
    order, already-done inputs, completions racing the registration, and a cancel at any point.
    cfgP = input per argument position (repeats = duplicated input), cfgS[i] = input i is wrapped in f_nocancel.
 
+   Bug = "publish_under_lock" (seeded change C14-r3m1): the output is written while `lock` - a plain, non re-entrant
+   Lock - is still held; a done-callback of the output that leads back into handle_done of the same operation
+   (OutCb, or a nested f_or/f_and sharing an input) then blocks the completing thread on itself for ever.
+
    AsShipped_N1 = TRUE models upstream: the second callback of a repeated input finds it gone from `fs`
    (KeyError).  A plain Future swallows the exception of a done-callback; the library's own future class
    (here: the f_nocancel wrapper) lets it escape from add_done_callback when the input is already done,
@@ -33,7 +37,9 @@
 *)
 EXTENDS CombinatorObs
 
-CONSTANTS Op, InputIds, PosChoices, Kinds, ShieldVals, CancelVals, Coarse, KeepHist, AsShipped_N1, Bug
+CONSTANTS Op, InputIds, PosChoices, Kinds, ShieldVals, CancelVals, Coarse, KeepHist, AsShipped_N1, Bug,
+          OutCb     \* 0, or an input id: after the call the client adds a done-callback to the output that calls cancel()
+                    \* on that input ("the race is over") - it runs inline in whichever thread completes the output
 
 \* argument lists (input per position) to substitute for PosChoices in the cfg files (PosChoices <- P2d ...)
 P2  == {<<1, 2>>}
@@ -50,10 +56,12 @@ Threads == {MAIN, CAN} \cup {Comp(i) : i \in InputIds}
 
 VARIABLES cfgK, cfgS, cfgP, cfgU,
           todo, fs, done, ist, already, okv, chain, cb, ost, oa, ob, ures, ready, seen, ended,
+          lk,        \* owner of the operation's lock between steps (only ever held across steps by the model bug)
+          ocbreg,    \* the client's callback on the output has been registered
           obs, viol, hist, actor
 
 cfg  == <<cfgK, cfgS, cfgP, cfgU>>
-impl == <<todo, fs, done, ist, already, okv, chain, cb, ost, oa, ob, ures, ready>>
+impl == <<todo, fs, done, ist, already, okv, chain, cb, ost, oa, ob, ures, ready, lk, ocbreg>>
 vars == <<cfg, impl, seen, ended, obs, viol, hist, actor>>
 
 RECURSIVE Feed(_, _, _)
@@ -89,18 +97,22 @@ Init ==
   /\ \A i \in InputIds : cfgS[i] => cfgK[i] # 4   \* a cancelled future behind f_nocancel never resolves it (D3)
   /\ todo = [t \in Threads |->
                IF t = MAIN THEN <<<<"ccall", 0>>>> \o [p \in DOMAIN cfgP |-> <<"reg", p>>] \o <<<<"cret", 0>>>>
+                                \o (IF OutCb # 0 THEN <<<<"ocb", 0>>>> ELSE <<>>)
                ELSE IF t = CAN THEN (IF cfgU THEN <<<<"ucall", 0>>, <<"ocan", 1>>, <<"uret", 0>>>> ELSE <<>>)
                ELSE IF cfgK[t[2]] = 0 \/ t[2] \notin Used THEN <<>>
                ELSE <<<<"icall", t[2]>>, <<"iset", t[2]>>, <<"iret", t[2]>>>>]
   /\ fs = Used /\ done = FALSE /\ ist = [i \in InputIds |-> 0] /\ already = [i \in InputIds |-> FALSE]
   /\ okv = [i \in InputIds |-> 1] /\ chain = {} /\ cb = {} /\ ost = "PENDING" /\ oa = -1 /\ ob = -1 /\ ures = -1
-  /\ ready = FALSE /\ seen = "PENDING" /\ ended = FALSE
+  /\ ready = FALSE /\ seen = "PENDING" /\ ended = FALSE /\ lk = <<"none", 0>> /\ ocbreg = FALSE
   /\ obs = ObsNext(ObsInit, Ev("Cfg", "-", "main", 0, -1, -1, Len(cfgP), -1, -1, Op, cfgP))
   /\ viol = "ok" /\ hist = <<>> /\ actor = <<"-", 0>>
 
 Pack == [todo |-> todo, fs |-> fs, done |-> done, ist |-> ist, already |-> already, okv |-> okv,
          chain |-> chain, cb |-> cb, ost |-> ost, oa |-> oa, ob |-> ob, ures |-> ures, ready |-> ready,
-         evs |-> <<>>]
+         lk |-> lk, ocbreg |-> ocbreg, evs |-> <<>>]
+NoOne == <<"none", 0>>
+\* the done-callbacks of the output: the client's one (registered after the call returned)
+OutCbOps(s) == IF OutCb # 0 /\ s.ocbreg THEN <<<<"cin", OutCb>>>> ELSE <<>>
 
 \* ------------------------------------------------------------------ handle_done(i), under the lock
 Decides(k, rest) ==
@@ -117,7 +129,9 @@ HandleDone(s, t, i, more) ==
              k == s.ist[i]
          IN IF ~Decides(k, rest) THEN [s EXCEPT !.fs = rest, !.todo[t] = more]
             ELSE [s EXCEPT !.fs = rest, !.done = TRUE,
+                           !.lk = IF Bug = "publish_under_lock" THEN t ELSE @,
                            !.todo[t] = (IF k \in {1, 2} THEN <<<<"wval", i>>>> ELSE IF k = 3 THEN <<<<"wexc", i>>>> ELSE <<>>)
+                                       \o (IF Bug = "publish_under_lock" THEN <<<<"unlock", 0>>>> ELSE <<>>)
                                        \o (IF Bug = "no_loser_cancel" THEN <<>> ELSE KeySeq(rest))
                                        \o (IF k = 4 THEN <<<<"ocan", 0>>>> ELSE <<>>)
                                        \o more]
@@ -150,12 +164,13 @@ Exec(s, t) ==
        [] k = "lock2" -> HandleDone2(s, t, x, more)
        [] k \in {"wval", "wexc"} ->
             IF s.ost = "PENDING"
-              THEN [s EXCEPT !.ost = "FINISHED", !.oa = IF k = "wexc" THEN 1 ELSE 0, !.ob = x, !.todo[t] = more]
+              THEN [s EXCEPT !.ost = "FINISHED", !.oa = IF k = "wexc" THEN 1 ELSE 0, !.ob = x,
+                             !.todo[t] = OutCbOps(s) \o more]
               ELSE [s EXCEPT !.todo[t] = more]           \* InvalidStateError, tolerated
        [] k = "ocan" ->
             IF s.ost = "PENDING"                           \* state CANCELLED, then the chain_cancel callbacks
               THEN [s EXCEPT !.ost = "CANCELLED", !.ures = IF x = 1 THEN 1 ELSE @,
-                             !.todo[t] = ChainOps(s.chain) \o more]
+                             !.todo[t] = ChainOps(s.chain) \o OutCbOps(s) \o more]
               ELSE [s EXCEPT !.ures = IF x = 1 THEN (IF s.ost = "CANCELLED" THEN 1 ELSE 0) ELSE @, !.todo[t] = more]
        [] k = "cin" ->
             IF s.ist[x] = 0 /\ ~cfgS[x]
@@ -173,6 +188,10 @@ Exec(s, t) ==
                                   ELSE [s EXCEPT !.cb = @ \cup {x}, !.todo[t] = more]
        [] k = "cret" -> [s EXCEPT !.todo[t] = more, !.ready = TRUE,
                                   !.evs = Append(@, Ev("CombRet", "-", "main", 0, -1, -1, -1, -1, 0, "", <<>>))]
+       [] k = "unlock" -> [s EXCEPT !.lk = NoOne, !.todo[t] = more]
+       [] k = "ocb" ->    \* out.add_done_callback(client's callback): inline if the output is already done
+            IF s.ost # "PENDING" THEN [s EXCEPT !.ocbreg = TRUE, !.todo[t] = <<<<"cin", OutCb>>>> \o more]
+                                 ELSE [s EXCEPT !.ocbreg = TRUE, !.todo[t] = more]
        [] k = "ucall" -> [s EXCEPT !.todo[t] = more, !.evs = Append(@, E1("CancelCall", "canceller", 0, 0))]
        [] k = "uret" -> [s EXCEPT !.todo[t] = more, !.evs = Append(@, E2("CancelRet", "canceller", 0, 0, s.ures))]
 
@@ -181,7 +200,8 @@ Run(s, t) ==
   LET s1 == Exec(s, t) IN
     IF Coarse /\ s1.todo[t] # <<>> /\ Head(s1.todo[t])[1] # "lock" THEN Run(s1, t) ELSE s1
 
-Enabled(t) == todo[t] # <<>> /\ (Head(todo[t])[1] = "ucall" => ready)
+Enabled(t) == /\ todo[t] # <<>> /\ (Head(todo[t])[1] = "ucall" => ready)
+              /\ (Head(todo[t])[1] \in {"lock", "lock2"} => lk = NoOne)     \* (a plain Lock: not re-entrant)
 
 \* the engine polls the tracked output (tracked once the call has returned it) after every step
 Apply(t) ==
@@ -190,7 +210,7 @@ Apply(t) ==
   IN
     /\ todo' = r.todo /\ fs' = r.fs /\ done' = r.done /\ ist' = r.ist /\ already' = r.already /\ okv' = r.okv
     /\ chain' = r.chain /\ cb' = r.cb /\ ost' = r.ost /\ oa' = r.oa /\ ob' = r.ob /\ ures' = r.ures
-    /\ ready' = r.ready
+    /\ ready' = r.ready /\ lk' = r.lk /\ ocbreg' = r.ocbreg
     /\ seen' = IF report THEN r.ost ELSE seen
     /\ Emit(IF report THEN Append(r.evs, ESA("Observed", "client", 0, 0, r.ost, r.oa, r.ob)) ELSE r.evs)
     /\ actor' = t
@@ -201,11 +221,16 @@ StepLock(t)   == Enabled(t) /\ Head(todo[t])[1] = "lock" /\ Apply(t)            
 StepClient(t) == Enabled(t) /\ Head(todo[t])[1] \in {"icall", "ucall", "ccall"} /\ Apply(t)
 StepOther(t)  == Enabled(t) /\ Head(todo[t])[1] \notin {"lock", "icall", "ucall", "ccall"} /\ Apply(t)
 
+\* a thread waiting for the lock when nobody can run any more waits for ever (the engine reports it at the end)
+Stuck(t) == todo[t] # <<>> /\ Head(todo[t])[1] \in {"lock", "lock2"} /\ lk # NoOne
 End ==
-  /\ ~ended /\ (\A t \in Threads : todo[t] = <<>> \/ (t = CAN /\ ~ready)) /\ (ready => seen = ost)
+  /\ ~ended /\ (\A t \in Threads : todo[t] = <<>> \/ (t = CAN /\ ~ready) \/ Stuck(t)) /\ (ready => seen = ost)
   /\ \A t \in Threads : ~Enabled(t)
   /\ ended' = TRUE
-  /\ Emit(<<E0("End", "main", 0)>>)
+  /\ LET st == AscSeq({i \in InputIds : Stuck(Comp(i))}) IN
+       Emit([k \in DOMAIN st |-> Ev("BlockedAtEnd", "-", "comp", 0, st[k], -1, -1, -1, -1, "acquire", <<>>)]
+            \o (IF Stuck(MAIN) \/ Stuck(CAN) THEN <<Ev("BlockedAtEnd", "-", "main", 0, -1, -1, -1, -1, -1, "acquire", <<>>)>> ELSE <<>>)
+            \o <<E0("End", "main", 0)>>)
   /\ actor' = OBS
   /\ UNCHANGED <<cfg, impl, seen>>
 
